@@ -371,6 +371,37 @@ def key_usage_masks(chk):
                       '(and a proper one may be refused)' % [hex(x) for x in ca], key='%s ca' % R)
 
 
+def name_compare_vectors(chk):
+    """Host names are compared case-insensitively over ASCII letters only (RFC 5280 7.2, RFC 4343): two bytes match iff they are
+    equal or are the two cases of one letter.  Decided by partial evaluation of eqnocase() at the boundary values of the letter ranges
+    ('@' / '`', 'A' / 'a', 'Z' / 'z', '[' / '{') and at non-letters that differ only in bit 5 ('.' / 0x0E, '-' / 0x0D, '1' / 0x11, '_' / 0x7F)."""
+    R = 'x509-name-compare'
+    U = oblig.funit(S)
+    fn = 'eqnocase'
+    if fn not in U.funcs:
+        raise AnalysisBroken('eqnocase vanished')
+    F = U.func(fn)
+    loads = sorted([i for i in F.insts.values() if i['op'] == 'load' and i['ty'] == 'i8'], key=lambda i: F.order[i['id']])
+    if len(loads) != 2:
+        raise AnalysisBroken('eqnocase: expected two byte loads, found %d' % len(loads))
+    plen = F.f['params'][2]
+    vec = [(0x41, 0x61, 1), (0x5A, 0x7A, 1), (0x61, 0x41, 1), (0x6D, 0x6D, 1), (0x2E, 0x2E, 1), (0x40, 0x60, 0), (0x5B, 0x7B, 0), (0x60, 0x40, 0), (0x7B, 0x5B, 0),
+           (0x2E, 0x0E, 0), (0x2D, 0x0D, 0), (0x31, 0x11, 0), (0x5F, 0x7F, 0), (0x61, 0x62, 0), (0x41, 0x42, 0), (0x00, 0x20, 0)]
+    n = 0
+    for a, b, want in vec:
+        hy = [dict(kind='pin', n=loads[0]['n'], value=a), dict(kind='pin', n=loads[1]['n'], value=b),
+              dict(kind='assume', n=plen['n'], ty=plen['ty'], pred='eq', value=1, param=True)]
+        Fo = U.optimise(fn, hy, ())
+        okk, det = fold.expect_ret_const(Fo, want)
+        n += 1
+        inst = 'eqnocase: 0x%02X vs 0x%02X %s' % (a, b, 'match' if want else 'do not match')
+        if okk:
+            chk.ok(R, inst, S)
+        else:
+            chk.violation(R, inst, S, 'partial evaluation gives %s: the server name / wildcard comparison accepts or refuses a name it should not' % det, key='%s %02X %02X' % (R, a, b))
+    chk.floor('name comparison vectors', n, 16)
+
+
 def err_writers(chk):
     """C stores to err: validation success (BR_ERR_X509_OK) is written only by the two trust natives"""
     u = build.load_unit(S)
@@ -418,5 +449,10 @@ def run(tier):
     err_writers(chk)
     t0_rules(chk)
     key_usage_masks(chk)
+    name_compare_vectors(chk)
+    from .c03 import hash_compare_shape
+    hash_compare_shape(chk, S, 'verify_signature', 'x509-signature-hash-compare')
     chk.floor('rule instances', len(chk.obls), 35)
+    from .. import lints
+    lints.length_is_boolean(chk, ['src/x509/'])
     return chk.finish()
